@@ -61,6 +61,12 @@ class IntervalTree:
         if not isinstance(intervals, np.ndarray):
             intervals = np.asarray(intervals)
 
+        if not intervals.shape[0]:
+            # An empty tree: no query will ever find anything
+            self.left = self.right = self.root = None
+            self.size = 0
+            return
+
         # Check the intervals whether they are valid:
         self.left = np.min(intervals)
         self.right = np.max(intervals)
@@ -147,6 +153,9 @@ class IntervalTree:
                 for interval in intervals]
 
     def _query(self, query_interval, node, check_extreme=False):
+        if node is None:
+            return []
+
         # Check this special case: the bounds of the query interval lie outside
         # of the bounds of this tree:
         if (check_extreme
@@ -181,6 +190,9 @@ class IntervalTree:
                 for point in points]
 
     def _query_point(self, point, node, check_extreme=False):
+        if node is None:
+            return []
+
         # Check this special case: the query point lies outside of the bounds
         # of this tree:
         if check_extreme \
